@@ -265,7 +265,7 @@ def r3(ctx):
     ins = [c for c in walk_exprs(ch) if c["k"] == "MCall" and c["m"] == "insert" and render(c["recv"]) == "file_map"]
     keys = {}
     for c in ins:
-        g = " & ".join(guard_text(x) for x in guards_of(ch, c))
+        g = " & ".join(guard_text(x) for x in guards_of(ch, c) if x[0] not in ("exit", "exitmatch"))
         kind = "function" if "column_expr.function" in g else "field" if "column_expr.field" in g else "arithmetic" if "arithmetic_op" in g else "?"
         keys[kind] = render(Locals(ch).chase(c["args"][0]))
     ok = all(keys.get(k, "").startswith("column_expr.to_string()") for k in ("function", "field", "arithmetic"))
